@@ -98,22 +98,26 @@ def run(ctx):
         raise vlib.HarnessError("MC_IniCsv_ini_%s: vacuous generation %s" % (tier, n))
     ctx.exhaustive = True
     ctx.rule = ("one case per transition of the IniCsv generators (INI text + set() history + expected lookups; CSV table + "
-                "expected file text), executed 3 (INI: write/destructor/operator[]) resp. 4+1 (CSV: int/double, cell-wise/row-"
-                "wise, specification's text) times on the real classes; non-trivial = at least one set() / two cells; "
+                "expected file text), executed 4 (INI: write/destructor/operator[]/write(name)) resp. 4+1 (CSV: int/double, cell-wise/"
+                "row-wise, data()/nextRow(), specification's text) times on the real classes (quick tier: half of the variants "
+                "per case); non-trivial = at least one set() / two cells; "
                 "distinct = distinct case lines (hash)")
-    ctx.replay(rep, cases, label="R/IniCsv-ini", timeout=ctx.pick(900, 5400), env={"C18_LOG": logbase})
+    renv = {"C18_LOG": logbase}
+    if ctx.quick:
+        renv["C18_HALF"] = "1"      # two of the four write paths / CSV variants per case (all of them in the thorough tier)
+    ctx.replay(rep, cases, label="R/IniCsv-ini", timeout=ctx.pick(900, 5400), env=renv)
     os.unlink(cases)
-    _validate_logs(ctx, logbase, "V/IniCsv-ini-replayed", ctx.pick(12, 16))
+    _validate_logs(ctx, logbase, "V/IniCsv-ini-replayed", ctx.pick(8, 16))
     ctx.model("MC_IniCsv", "MC_IniCsv_csv_" + tier, emit_to=cases, timeout=ctx.pick(900, 5400), xmx="8g", must_cover=False)
     n2 = _count(cases)
     if n2["csv"] == 0 or n2["csv_quoted"] == 0 or n2["csv_num"] == 0:
         raise vlib.HarnessError("MC_IniCsv_csv_%s: vacuous generation %s" % (tier, n2))
-    ctx.replay(rep, cases, label="R/IniCsv-csv", timeout=ctx.pick(900, 5400), env={"C18_LOG": logbase})
+    ctx.replay(rep, cases, label="R/IniCsv-csv", timeout=ctx.pick(900, 5400), env=renv)
     os.unlink(cases)
     _validate_logs(ctx, logbase, "V/IniCsv-csv-replayed", ctx.pick(6, 16))
     ctx.extra["generated"] = {**n, **{k: v for k, v in n2.items() if k.startswith("csv")}}
     # random executions
-    files = ctx.record(rec, ctx.pick(12, 64), ctx.pick(2400, 12000), "V/IniCsv")
+    files = ctx.record(rec, ctx.pick(8, 64), ctx.pick(2000, 12000), "V/IniCsv")
     ctx.validate_traces("Trace_IniCsv", "Trace_IniCsv", files, label="V/IniCsv", timeout=ctx.pick(600, 3000))
     ctx.assumptions += [
         "exhaustive within the constants of spec/MC_IniCsv_ini_%s.cfg and MC_IniCsv_csv_%s.cfg; beyond them only the recorded "
